@@ -5,12 +5,16 @@ package main
 //     cipher case subtracts, the `pkt > N` guard, the product and the cap;
 //   - writeRecordLocked: the shape of the split loop;
 //   - encrypt: the CBC padding arithmetic and which cases prepend an explicit nonce;
-//   - readRecordOrCCS: the two size checks; readFromUntil / atLeastReader by AST hash only.
+//   - readRecordOrCCS: the two size checks; readFromUntil / atLeastReader by AST hash only;
+//   - rxRawInputUsers: every function of the package that mentions the field `rawInput` (the
+//     frame condition behind the handshake/application boundary: what readFromUntil buffered
+//     ahead belongs to the record layer alone; no handshake step may touch it).
 // Every shape fact is a Bool "the statement is literally the expected one"; the Lean model
 // is a transcription of that expected statement, so a changed statement breaks `C06_facts`.
 
 import (
 	"go/ast"
+	"sort"
 	"strings"
 )
 
@@ -139,6 +143,24 @@ func emitRecordTx(e *emitter, p *pkg) {
 	e.boolean("rxReadsHeaderThenBody", rtxHasPrefix(rr, "if err := c.readFromUntil(c.conn, recordHeaderLen); err != nil {") &&
 		rtxHasPrefix(rr, "if err := c.readFromUntil(c.conn, recordHeaderLen+n); err != nil {") &&
 		rtxHas(rr, "record := c.rawInput.Next(recordHeaderLen + n)") && rtxHas(rr, "n := int(hdr[3])<<8 | int(hdr[4])"))
+	var users []string
+	for key, fd := range p.funcs {
+		if fd.Body == nil {
+			continue
+		}
+		found := false
+		ast.Inspect(fd.Body, func(n ast.Node) bool {
+			if se, ok := n.(*ast.SelectorExpr); ok && se.Sel.Name == "rawInput" {
+				found = true
+			}
+			return !found
+		})
+		if found {
+			users = append(users, key)
+		}
+	}
+	sort.Strings(users)
+	e.strList("rxRawInputUsers", users)
 	rd := rtxStmts(p, "Conn.Read")
 	e.boolean("readDrainsInput", rtxHasPrefix(rd, "for c.input.Len() == 0 {") && rtxHas(rd, "n, _ := c.input.Read(b)") &&
 		rtxHasPrefix(rd, "if n != 0 && c.input.Len() == 0 && c.rawInput.Len() > 0 && recordType(c.rawInput.Bytes()[0]) == recordTypeAlert {"))
